@@ -85,6 +85,14 @@ def _run(case, ctx, variant):
         a.positions = np.asarray(a.positions, float).dot(Rm.T)
     from vmon.oracle.util import flavour
     st.seen("array_flavour", flavour(a, case["s"] // 3))
+    if case["s"] % 5 == 2 and variant is None:
+        # coordinates held in single precision (a trajectory frame assigned to the object): on a 1/8 grid, in a cell on a 1/4
+        # grid, so that every image position is exact in single precision as well and the comparison needs no allowance
+        cell32 = np.round(np.array(a.cell, float) * 4.0) / 4.0
+        if abs(np.linalg.det(cell32)) > 1.0:
+            a.cell = cell32
+            a.positions = (np.round(np.asarray(a.positions, float) * 8.0) / 8.0).astype(np.float32)
+            st.count("structures_whose_coordinates_are_held_in_single_precision")
     if case.get("long"):
         st.count("replications_with_a_factor_of_forty_or_more")
     snap = clone(a)
@@ -197,6 +205,8 @@ def _run(case, ctx, variant):
 
 def requirements(stats, tier):
     need = []
+    if stats.get("structures_whose_coordinates_are_held_in_single_precision") < (20 if tier == "quick" else 1000):
+        need.append("structures whose coordinates are held in single precision: %d" % stats.get("structures_whose_coordinates_are_held_in_single_precision"))
     if stats.get("structures_with_two_atom_types_of_one_label") < 20:
         need.append("structures with two atom types of one label: %d replications" % stats.get("structures_with_two_atom_types_of_one_label"))
     if stats.get("replications_of_a_rotated_twin_right_after_the_original") < (20 if tier == "quick" else 500):
